@@ -32,6 +32,15 @@ PROPS = {
                      "node identity is kept in the model (a clone carries the id of the node it was cloned from); that clone nodes are new allocations is read off the table shape (out := &K{}) and checked on the implementation by pointer-identity comparison",
                      "'prints identically' composes C06_clone_is_complete_copy with the table obligations C06_clone_covers_what_printing_consults / C06_init_spacing_never_rendered; the composition (flatten depends on the tree only through the copied fields) is exercised by C06_nonvacuous and the implementation oracle, not stated as one theorem"],
     ),
+    "C11": dict(
+        unknown_keys=["decorator-node-generated.go", "restorer-generated.go", "dst.go"],
+        trusted_base=[KERNEL, TRANSLATOR + " (decorator-node-generated.go -> Gen/DecTbl.v statement by statement: statements touching the node maps, calling decorateNode or assigning through the input ast must be recognised exactly; restorer-generated.go -> Gen/RestTbl.v; dst.go -> Gen/Universe.v)",
+                      HARNESS + " (oracle over the complete maps of real Decorator and Restorer runs)",
+                      "hand-written code not translated: decorateSelectorExpr, restoreIdent, the memo check / duplicate check frames (frame text pinned; behaviour checked by the oracle)"],
+        assumptions=["node identity is abstract in the model: freshness of out := &dst.K{} and the memo check give the NoDup hypotheses of C11_converse_maps_are_inverse; both are facts about the translated case heads (C11_decorator_cases_record_both_maps) and are checked on the implementation over complete maps",
+                     "the order of child statements within a case does not affect which nodes are mapped; C11_every_node_decorated_once is stated for the child table in struct order",
+                     "ast trees are viewed through the dst universe (same kinds and Node fields, comments excluded)"],
+    ),
     "C12": dict(
         unknown_keys=["restorer-generated.go"],
         trusted_base=RESTORE_TB,
